@@ -47,6 +47,9 @@ def list_empty(l):
     return not l["gen"] and not l["secs"] and not l["self"]
 
 
+GOOD_BOOT = {"b1", "b2", "empty", "-"}
+
+
 def classify(rec):
     """Narrow classification of a reproduced disagreement (direction A record
     or the equivalent record built from a rejected trace line)."""
@@ -58,16 +61,18 @@ def classify(rec):
     want = sorted(r["code"] for r in act["res"])
     if pre is None:
         return None
-    # Only local_ptr_upstreams is sent, emptied, while private rDNS is on and
-    # neither list nor OS provides a server: the specification rejects (400),
-    # the server answers 500 and stops serving DNS.
-    if (has == {"ptr"} and list_empty(req["ptr"]) and req["ptr"]["bad"] == "ok" and pre["cfg"]["use"] and not pre["sys"]
+    if any(req[f]["bad"] != "ok" for f in ("up", "fb", "ptr")) or req["boot"] not in GOOD_BOOT:
+        return None
+    # local_ptr_upstreams is sent WITHOUT use_private_ptr_resolvers, emptied,
+    # while private rDNS is on and neither list nor OS provides a server: the
+    # specification rejects (400), the server answers 500 and stops serving.
+    if ("ptr" in has and "use" not in has and list_empty(req["ptr"]) and pre["cfg"]["use"] and not pre["sys"]
             and want == [400] and got.get("code") == 500):
         return K_CLEAR
-    # Only use_private_ptr_resolvers=true is sent while valid servers are
-    # stored (and the OS provides none): the specification accepts, the server
-    # validates against an empty list and answers 400.
-    if (has == {"use"} and req["use"] and not pre["cfg"]["use"] and pre["cfg"]["ptr"]["gen"] and not pre["sys"]
+    # use_private_ptr_resolvers=true is sent WITHOUT local_ptr_upstreams while
+    # valid servers are stored (and the OS provides none): the specification
+    # accepts, the server validates against an empty list and answers 400.
+    if ("use" in has and "ptr" not in has and req["use"] and pre["cfg"]["ptr"]["gen"] and not pre["sys"]
             and want == [200] and got.get("code") == 400):
         return K_ENABLE
     return None
@@ -301,6 +306,92 @@ def go_replay(ctx, tours, tag, workers, timeout):
     return rows, summ[0]["stats"]
 
 
+def record_traces(ctx, tag, n, only=None):
+    tout = ctx.path("g11_trace_%s.ndjson" % tag)
+    env = {"VERIF_OUT": tout, "VERIF_G11_HISTORIES": str(n), "VERIF_G11_WORKERS": "24"}
+    if only is not None:
+        env["VERIF_G11_ONLY"] = ",".join(str(h) for h in only)
+    rc, out = ctx.go_test(PKG, FILES, "^TestZZVerifG11Trace$", env=env, timeout=900, go_timeout="900s")
+    rows = vlib.read_ndjson(tout)
+    if rc != 0 or not rows:
+        raise vlib.Inconclusive("G11 trace driver did not complete:\n" + out[-3000:])
+    return rows
+
+
+def validate(ctx, rows, tag):
+    """Validate recorded lines with TraceUpstreams.tla; returns {line number
+    (1-based): detail} of the rejected lines."""
+    p = ctx.path("g11_trace_%s_tlc.ndjson" % tag)
+    vlib.write_ndjson(p, [{k: v for k, v in r.items() if k != "concrete"} for r in rows])
+    r = ctx.tlc("TraceUpstreams", "TraceUpstreams.cfg", workers=1, extra_files=[(p, "trace.ndjson")], timeout=900, heap="4g")
+    verdicts = [v for v in r["vectors"] if v.get("k") == "verdict"]
+    if not verdicts:
+        raise vlib.Inconclusive("TraceUpstreams produced no verdict")
+    if verdicts[-1]["n"] != len(rows):
+        raise vlib.Inconclusive("TraceUpstreams consumed %s of %d lines" % (verdicts[-1]["n"], len(rows)))
+    det = {v["line"]: v["detail"] for v in r["vectors"] if v.get("k") == "bad"}
+    if sorted(det) != sorted(verdicts[-1]["bad"]):
+        raise vlib.Inconclusive("TraceUpstreams: rejected lines %s, details for %s" % (verdicts[-1]["bad"], sorted(det)))
+    return det
+
+
+def in_history(rows, i):
+    """(history, index within the history) of line i (1-based)."""
+    h = rows[i - 1]["h"]
+    return h, sum(1 for r in rows[:i] if r["h"] == h)
+
+
+def trace_record(rows, i, detail, seed):
+    row = rows[i - 1]
+    h, k = in_history(rows, i)
+    hist = [r.get("concrete", "%s %s" % (r["k"], r.get("u", ""))) for r in rows[:i] if r["h"] == h and r["k"] != "ask"]
+    rec = {"kind": "trace", "h": h, "line_in_history": k, "seed": seed, "pre": detail.get("pre"), "concrete": hist[-12:] + [row.get("concrete")]}
+    if row["k"] == "set":
+        rec["act"] = {"a": "set", "req": row["req"], "res": [{"code": c} for c in detail["codes"]]}
+        rec["got"] = {"code": row["code"], "info": row["info"], "infobad": row["infobad"]}
+        rec["what"] = "history %d line %d: %s; the specification admits %s%s" % (
+            h, k, row.get("concrete"), detail["codes"], ("; dns_info: " + row["infobad"]) if row["infobad"] else
+            ("" if row["code"] not in detail["codes"] else "; dns_info does not report the configuration in effect: %s" % json.dumps(row["info"])[:600]))
+    else:
+        rec["act"] = {"a": "ask", "loc": row["loc"], "q": row["q"], "alts": detail["alts"]}
+        rec["got"] = row["obs"]
+        rec["what"] = "history %d line %d: %s; admissible %s; configuration %s, not responding %s" % (
+            h, k, row.get("concrete"), json.dumps(detail["alts"]), json.dumps(detail["pre"]["cfg"]), detail.get("down"))
+    return rec
+
+
+def direction_b(ctx, n):
+    rows = record_traces(ctx, "b", n)
+    det = validate(ctx, rows, "b")
+    confirmed = []
+    if det:
+        hs = sorted({rows[i - 1]["h"] for i in det})
+        rows2 = record_traces(ctx, "b_again", n, only=hs)
+        det2 = validate(ctx, rows2, "b_again")
+        first = {in_history(rows, i) for i in det}
+        for i, d in sorted(det2.items()):
+            if in_history(rows2, i) in first:
+                confirmed.append(trace_record(rows2, i, d, ctx.seed))
+        ctx.log("TraceUpstreams: %d rejected lines in %d histories, %d confirmed on regeneration" % (len(det), len(hs), len(confirmed)))
+    # Binding demonstration: a corrupted observation must be rejected at its line.
+    demo = None
+    head = [dict(r) for r in rows[:400]]
+    for i, r in enumerate(head):
+        if r["k"] == "ask" and r["obs"]["cls"] == "up" and (i + 1) not in det:
+            other = [u for u in ("u1", "u2", "u3", "u4") if u not in r["obs"]["rcv"]]
+            if not other:
+                continue
+            r["obs"] = dict(r["obs"], by=other[0], rcv=r["obs"]["rcv"] + [other[0]])
+            d3 = validate(ctx, head, "b_demo")
+            if (i + 1) not in d3:
+                raise vlib.Inconclusive("binding demonstration: corrupted trace line %d was accepted" % (i + 1))
+            demo = {"line": i + 1, "corrupted_obs": r["obs"], "rejected": True}
+            break
+    if demo is None:
+        raise vlib.Inconclusive("binding demonstration: no forwarded question among the first trace lines")
+    return rows, det, confirmed, demo
+
+
 def pre_of(tour, step):
     """The specification's state before step `step` of a tour (for the
     classifier): the configuration of the last accepted dns_config."""
@@ -352,6 +443,20 @@ def run(ctx):
     if stats.get("tours", 0) != len(tours):
         raise vlib.Inconclusive("harness ran %s of %d tours" % (stats.get("tours"), len(tours)))
 
+    # ---- direction B
+    trows, tdet, tconf, demo = direction_b(ctx, 150 if ctx.quick else 1200)
+    for rec in tconf:
+        key = classify(rec)
+        verdict = ctx.disagreement(key, rec, rec["what"])
+        if verdict == "known":
+            by_key["trace:" + key] = by_key.get("trace:" + key, 0) + 1
+    tkinds = collections.Counter(r["k"] for r in trows)
+    tcodes = collections.Counter(r["code"] for r in trows if r["k"] == "set")
+    tcls = collections.Counter(r["obs"]["cls"] for r in trows if r["k"] == "ask")
+    if min(tkinds.get(k, 0) for k in ("reset", "set", "down", "ask")) < 10 or tcodes.get(200, 0) < 10 or tcodes.get(400, 0) < 10 \
+            or min(tcls.get(c, 0) for c in ("up", "nx", "local", "fail")) < 3:
+        raise vlib.Inconclusive("vacuous traces: %s %s %s" % (dict(tkinds), dict(tcodes), dict(tcls)))
+
     exhaustive = all(st["edges_planned"] == st["edges"] and st["states_visited"] == st["states"] for st in pstats.values())
     nontrivial = sum(1 for t in tours for s in t["steps"] if (s["a"] == "set" and s["res"][0]["code"] == 400)
                      or (s["a"] == "ask" and any(a["must"] or len(a["may"]) > 1 or a["cls"] in ("nx", "local", "fail") for a in s["alts"])))
@@ -359,8 +464,11 @@ def run(ctx):
     for t in tours[:2]:
         samples.append({"tour": t["id"], "uni": t["uni"], "sys": t["sys"], "steps": t["steps"][:3]})
     cov = {
-        "traces_validated_against_impl": len(tours),
-        "evaluations": stats.get("set", 0) + stats.get("ask", 0),
+        "traces_validated_against_impl": len(tours) + tkinds.get("reset", 0),
+        "evaluations": stats.get("set", 0) + stats.get("ask", 0) + tkinds.get("set", 0) + tkinds.get("ask", 0),
+        "trace_lines": len(trows), "trace_histories": tkinds.get("reset", 0), "trace_lines_rejected": len(tdet),
+        "trace_lines_rejected_confirmed": len(tconf), "trace_status_codes": {str(k): v for k, v in tcodes.items()},
+        "trace_response_classes": dict(tcls), "binding_demo": demo,
         "tours": len(tours), "dns_config_calls": stats.get("set", 0), "dns_config_accepted": stats.get("accepted", 0),
         "questions": stats.get("ask", 0), "plan": pstats,
         "distinct_nontrivial": nontrivial,
@@ -384,6 +492,14 @@ def run(ctx):
 
 def replay(ctx, path):
     rec = json.load(open(path))["record"]
+    if rec.get("kind") == "trace":
+        ctx.seed = rec["seed"]
+        rows = record_traces(ctx, "replay", 0, only=[rec["h"]])
+        det = validate(ctx, rows, "replay")
+        print(json.dumps({"history": rec["h"], "stored_line": rec["line_in_history"], "rejected_lines": sorted(det),
+                          "lines": [{"line": rows[i - 1].get("concrete"), "specification": {k: v for k, v in d.items() if k != "pre"}} for i, d in sorted(det.items())][:3],
+                          "verdict": "DISAGREEMENT" if det else "accepted"}, indent=1)[:6000])
+        return 1 if det else 0
     tour = rec["replay"]
     tour["id"] = 0
     ctx.seed = rec.get("seed", ctx.seed)
